@@ -95,6 +95,22 @@ def opt_adv(rnd, p_none=0.4, p_empty=0.08, **kw):
     return s
 
 
+class OneShot(list):
+    """a multi-valued argument handed over as a one-shot iterable (iterator / generator / map object); `fresh()` makes a new one
+    for every call, the model and the judge see the list"""
+    kind = 'iter'
+
+    def fresh(self):
+        if self.kind == 'gen':
+            return (x for x in list(self))
+        if self.kind == 'map':
+            return map(str, list(self))
+        return iter(list(self))
+
+    def __repr__(self):
+        return {'gen': '(x for x in %s)', 'map': 'map(str, %s)', 'iter': 'iter(%s)'}[self.kind] % list.__repr__(self)
+
+
 def multi_adv(rnd, gen=None):
     gen = gen or (lambda: adv(rnd, 0, 6))
     r = rnd.random()
@@ -108,6 +124,10 @@ def multi_adv(rnd, gen=None):
         return gen() or 'x'
     n = rnd.randint(1, 4)
     vals = [gen() for _ in range(n)]
+    if rnd.random() < 0.15:
+        o = OneShot(vals)
+        o.kind = rnd.choice(['iter', 'gen', 'map'])
+        return o
     return tuple(vals) if rnd.random() < 0.5 else vals
 
 
@@ -421,7 +441,7 @@ SYMBOL_FUNCS = {'wifi': helpers.make_wifi, 'mecard': helpers.make_mecard, 'vcard
 
 def run_impl(c):
     try:
-        out = FUNCS[c.factory](**c.kw)
+        out = FUNCS[c.factory](**{k: (v.fresh() if isinstance(v, OneShot) else v) for k, v in c.kw.items()})
     except Exception as ex:  # noqa
         c.exc = exc_class(ex)
         c.extra['exc_text'] = str(ex)[:160]
@@ -529,7 +549,7 @@ def sweep_helpers(cases, st, res, tier, rnd, symbols_per_factory):
 
 
 def _helper_call(factory, kw):
-    return FUNCS[factory](**kw)
+    return FUNCS[factory](**{k: (v.fresh() if isinstance(v, OneShot) else v) for k, v in kw.items()})
 
 
 def _helper_snap(x):
